@@ -440,7 +440,10 @@ func (g *Gen) memberName() *ast.Identifier {
 func (g *Gen) propName() *ast.Identifier {
 	if g.chance(1, 8, "kwprop") {
 		g.feat("keyword-as-property")
-		return g.Ident(g.pick("kwprop", "class", "list", "for", "new", "array", "default", "function", "static"))
+		id := g.Ident(g.pick("kwprop", "class", "list", "for", "new", "array", "default", "function", "static"))
+		// only whitespace keeps the lexer in its "property name" state; after a comment the word is a keyword again
+		g.setGap(id.IdentifierTkn, GapWS)
+		return id
 	}
 	return g.Ident(g.plainName())
 }
